@@ -120,28 +120,30 @@ impl Board {
 
 impl MoveGen {
     pub fn is_empty(&self) -> bool {
-        if let [legals, ..] = &self.moves[self.index..] {
-            return (legals.moves & self.mask).none();
-        }
-
-        true
+        self.moves[self.index..]
+            .iter()
+            .all(|legals| (legals.moves & self.mask).none())
     }
 
     pub fn len(&self) -> usize {
         const NUM_PROMOTION_PIECES: usize = 4;
 
         let mut len = 0;
+        // the promotion group in progress belongs to the first entry that still has moves
+        let mut in_progress = NUM_PROMOTION_PIECES - self.promotions.len();
 
         for legals in &self.moves[self.index..] {
-            if (legals.moves & self.mask).none() {
-                break;
-            }
             let count = (legals.moves & self.mask).count() as usize;
+            if count == 0 {
+                // nothing (left) here under the current mask, the iterator skips it
+                continue;
+            }
             len += if legals.promotion {
-                count * NUM_PROMOTION_PIECES
+                count * NUM_PROMOTION_PIECES - in_progress
             } else {
                 count
             };
+            in_progress = 0;
         }
 
         len
@@ -156,13 +158,15 @@ impl MoveGen {
 
     /// Never, ever, iterate this move
     pub fn remove_move(&mut self, chess_move: ChessMove) -> bool {
+        // a pawn can own two entries (its ordinary moves and an en-passant capture)
+        let mut found = false;
         for x in 0..self.moves.len() {
             if self.moves[x].src == chess_move.source {
                 self.moves[x].moves -= chess_move.dest;
-                return true;
+                found = true;
             }
         }
-        false
+        found
     }
 
     pub fn set_mask(&mut self, mask: BitBoard) {
@@ -199,15 +203,18 @@ impl Iterator for MoveGen {
 
     fn next(&mut self) -> Option<Self::Item> {
         let legals = &mut self.moves[..];
+
+        // skip entries with nothing (left) under the current mask: an en-passant or castling
+        // destination outside the mask, or an entry emptied by `remove` / `remove_move`
+        while self.index < legals.len() && (legals[self.index].moves & self.mask).none() {
+            self.index += 1;
+        }
+
         if self.index >= legals.len() {
             return None;
         }
 
         let legal = &mut legals[self.index];
-
-        if (legal.moves & self.mask).none() {
-            return None;
-        }
 
         if legal.promotion {
             let &promotion = self.promotions.next().unwrap();
